@@ -6,6 +6,9 @@
 (* table of results each operation gives alone in a fresh process.         *)
 (*   HistoryFree : result i of the history = fresh result of operation i   *)
 (*   Quiescent   : after every operation the singleton is NULL, counter 0  *)
+(*                 (implementation level: the front end reports a failure  *)
+(*                 of this alone as specification drift, not as a          *)
+(*                 violation of C15)                                       *)
 (***************************************************************************)
 EXTENDS Naturals, Sequences, TLC, Json, IOUtils
 Events == ndJsonDeserialize(IOEnv.TRACE)
